@@ -325,8 +325,8 @@ proof_k8!(c02_selectors_idx_idx_wild, 6, {
     forget(sc);
 });
 
-// the same with concrete indices (every length along the way is concrete, so a decision is
-// reached even when the merge code under test is pointer-heavy): [0, 1, *] and [-1, 0, *]
+// the same with concrete indices: [0, 1, *] and [-1, 0, *]. NOT registered: subsumed by the harness
+// above on the unchanged tree (62 s / 48 s), and on seed C02-m3 they run out of 16 GB just like it.
 macro_rules! c02_selectors_cidx_wild {
     ($name:ident, $i:expr, $j:expr) => {
         proof_k8!($name, 6, {
